@@ -64,10 +64,13 @@ LongOnes == {List(LongSeq), Tuple(LongSeq), Dict([k \in {"k1"} |-> Tuple(LongSeq
 Pool == IF Universe = "small"
         THEN AttrLeaves \cup Depth1(Classes \cup {PyFloat, PyBool, NpInt, PyComplex, Arr0d}) \cup NestedObjs \cup LongOnes
         ELSE AttrLeaves \cup Depth1(ContLeaves) \cup Depth2 \cup NestedObjs \cup LongOnes
-Pool2 == {PyInt, PyStr, Arr2d, TenGrad, SetOf({PyInt, PyStr}), List(<<PyInt, PyFloat>>), Rng,
+\* (set elements that are stored as sub-groups - tuples - next to elements stored as attributes)
+SetsOfTuples == {SetOf({Tuple(<<PyInt, PyStr>>)}), SetOf({PyStr, Tuple(<<PyInt, PyInt>>), Tuple(<<PyStr, PyInt>>)})}
+Pool2 == SetsOfTuples \cup
+         {PyInt, PyStr, Arr2d, TenGrad, SetOf({PyInt, PyStr}), List(<<PyInt, PyFloat>>), Rng,
           Obj("Inner", [n \in {"x"} |-> PyInt]), Dict([k \in {"k1"} |-> Arr0d]), NpInt, Arr0d, PyPath}
 
-Roots == {Obj("Root", [n \in {"a"} |-> v]) : v \in Pool}
+Roots == {Obj("Root", [n \in {"a"} |-> v]) : v \in Pool \cup SetsOfTuples \cup {List(<<SetOf({Tuple(<<PyInt, PyStr>>), PyStr}), PyInt>>)}}
          \cup {Obj("Root", [n \in {"a", "b"} |-> IF n = "a" THEN v ELSE u]) : v \in Pool2, u \in Pool2}
          \cup {Obj("Root", NoMap)}
 
